@@ -49,9 +49,9 @@ pub type Sequencer = u64;
 /// Maintains state for the ORL.
 #[derive(Clone, Debug, Eq, Hash, PartialEq)]
 pub struct StateWrapper<Msg, State> {
-    // send side
-    next_send_seq: Sequencer,
-    msgs_pending_ack: HashableHashMap<Sequencer, (Id, Msg)>,
+    // send side (sequencers are per destination so that a receiver can recognise gaps)
+    next_send_seq: HashableHashMap<Id, Sequencer>,
+    msgs_pending_ack: HashableHashMap<(Id, Sequencer), Msg>,
 
     // receive (ack'ing) side
     last_delivered_seqs: HashableHashMap<Id, Sequencer>,
@@ -71,7 +71,7 @@ impl<Msg: Clone, State> StateWrapper<Msg, State> {
         (
             self.msgs_pending_ack
                 .iter()
-                .map(|(seq, (dst, msg))| (*seq, *dst, msg.clone()))
+                .map(|((dst, seq), msg)| (*seq, *dst, msg.clone()))
                 .collect(),
             self.last_delivered_seqs.iter().map(|(k, v)| (*k, *v)).collect(),
             &self.wrapped_state,
@@ -109,7 +109,7 @@ where
 
         let mut wrapped_out = Out::new();
         let mut state = StateWrapper {
-            next_send_seq: 1,
+            next_send_seq: Default::default(),
             msgs_pending_ack: Default::default(),
             last_delivered_seqs: Default::default(),
             wrapped_state: self.wrapped_actor.on_start(id, &mut wrapped_out),
@@ -128,13 +128,21 @@ where
     ) {
         match msg {
             MsgWrapper::Deliver(seq, wrapped_msg) => {
-                // Always ack the message to prevent re-sends, and early exit if already delivered.
-                o.send(src, MsgWrapper::Ack(seq));
-                if seq <= *state.last_delivered_seqs.get(&src).unwrap_or(&0) {
+                let last_delivered_seq = *state.last_delivered_seqs.get(&src).unwrap_or(&0);
+                if seq > last_delivered_seq + 1 {
+                    // An earlier message from this source is still missing (lost or overtaken).
+                    // Handing this one over now would deliver out of order, and acknowledging it
+                    // would make the source forget it, so wait for the retransmissions.
                     return;
                 }
 
-                // Process the message, and early exit if ignored.
+                // Ack the message to prevent re-sends, and early exit if already delivered.
+                o.send(src, MsgWrapper::Ack(seq));
+                if seq <= last_delivered_seq {
+                    return;
+                }
+
+                // Process the message.
                 let mut wrapped_state = Cow::Borrowed(&state.wrapped_state);
                 let mut wrapped_out = Out::new();
                 self.wrapped_actor.on_msg(
@@ -144,16 +152,14 @@ where
                     wrapped_msg,
                     &mut wrapped_out,
                 );
-                if is_no_op(&wrapped_state, &wrapped_out) {
-                    return;
-                }
 
-                // Never delivered, and not ignored by actor, so update the sequencer and process the original output.
+                // Never delivered, so update the sequencer (even if the actor ignored the message,
+                // as its successor is only accepted afterwards) and process the original output.
                 if let Cow::Owned(wrapped_state) = wrapped_state {
                     // Avoid unnecessarily cloning wrapped_state by not calling to_mut() in this
                     // case.
                     *state = Cow::Owned(StateWrapper {
-                        next_send_seq: state.next_send_seq,
+                        next_send_seq: state.next_send_seq.clone(),
                         msgs_pending_ack: state.msgs_pending_ack.clone(),
                         last_delivered_seqs: state.last_delivered_seqs.clone(),
                         wrapped_state,
@@ -163,7 +169,7 @@ where
                 process_output(state.to_mut(), wrapped_out, o);
             }
             MsgWrapper::Ack(seq) => {
-                state.to_mut().msgs_pending_ack.remove(&seq);
+                state.to_mut().msgs_pending_ack.remove(&(src, seq));
             }
         }
     }
@@ -178,7 +184,7 @@ where
         match timer {
             TimerWrapper::Network => {
                 o.set_timer(TimerWrapper::Network, self.resend_interval.clone());
-                for (seq, (dst, msg)) in &state.msgs_pending_ack {
+                for ((dst, seq), msg) in &state.msgs_pending_ack {
                     o.send(*dst, MsgWrapper::Deliver(*seq, msg.clone()));
                 }
             }
@@ -216,14 +222,10 @@ fn process_output<A: Actor>(
                 todo!("SetTimer is not supported at this time");
             }
             Command::Send(dst, inner_msg) => {
-                o.send(
-                    dst,
-                    MsgWrapper::Deliver(state.next_send_seq, inner_msg.clone()),
-                );
-                state
-                    .msgs_pending_ack
-                    .insert(state.next_send_seq, (dst, inner_msg));
-                state.next_send_seq += 1;
+                let seq = *state.next_send_seq.get(&dst).unwrap_or(&1);
+                o.send(dst, MsgWrapper::Deliver(seq, inner_msg.clone()));
+                state.msgs_pending_ack.insert((dst, seq), inner_msg);
+                state.next_send_seq.insert(dst, seq + 1);
             }
             Command::ChooseRandom(_, _) => {
                 todo!("ChooseRandom is not supported at this time");
